@@ -17,6 +17,134 @@ def est(rng, dir_=None, order=None, gap=None, start=0, keep=False, nopeer=""):
             "gap_ms": rng.choice(GAPS_IN) if gap is None else gap, "start_ms": start, "keep": keep, "nopeer": nopeer}
 
 
+ACC_EVS = {"grpc.accept.listening", "grpc.accept.sent"}
+DIAL_EVS = {"grpc.run.recv", "grpc.run.park", "grpc.getclientstream", "grpc.tw.deleted", "grpc.dial.slot", "grpc.dial.took", "grpc.dial.timeout"}
+DRV_EVS = {"call.accept", "ret.accept", "call.dial", "ret.dial"}
+
+
+def project_plain_trace(events, direction):
+    """The events of one direction of a plain in-process pair, ids renumbered 1..k (a bijection), as
+    rows for TraceGRPCPlainImpl. Pure projection: nothing is reordered or inferred."""
+    acc_side, dial_side = ("P", "H") if direction == "h2p" else ("H", "P")
+    ids = {}
+
+    def rn(x):
+        if x not in ids:
+            ids[x] = len(ids) + 1
+        return ids[x]
+    rows = [{"ev": "reset", "a": 0, "b": 0, "t": 0}]
+    for e in events:
+        ev = e["ev"]
+        if ev in DRV_EVS:
+            if e.get("dir") != direction:
+                continue
+            r = {"ev": ev, "a": rn(e["a"]), "b": 0, "t": e["t"]}
+            if ev == "ret.dial":
+                sb = e.get("served_by", -1)
+                r.update({"ok": bool(e.get("ok")), "timeout": bool(e.get("timeout")), "served_by": -1 if sb == -1 else ids.get(sb, 999)})
+            rows.append(r)
+        elif (ev in ACC_EVS and e["obj"] == acc_side) or (ev in DIAL_EVS and e["obj"] == dial_side):
+            if ev == "grpc.run.recv" and e["b"] == 1:
+                continue
+            b = e["b"]
+            if ev == "grpc.dial.took":
+                b = ids.get(b, 999)
+            rows.append({"ev": ev, "a": rn(e["a"]), "b": b, "t": e["t"]})
+    rows.append({"ev": "end", "a": 0, "b": 0, "t": rows[-1]["t"]})
+    return rows, len(ids)
+
+
+def validate_plain_traces(obs, tag):
+    """Validates the event logs of the plain in-process pairs in obs against GRPCPlainImpl.tla.
+    Returns (number of (case, direction) traces accepted, {case name: (rejected event, detail)}, events validated)."""
+    packed = []
+    nev = 0
+    for name, o in obs.items():
+        evs = (o.get("out") or {}).get("events")
+        if not evs or o.get("mux") or o.get("pair") != "inproc":
+            continue
+        for d in ("h2p", "p2h"):
+            rows, k = project_plain_trace(evs, d)
+            if len(rows) > 2 and k <= 12:
+                packed.append(("%s/%s" % (name, d), rows))
+                nev += len(rows)
+    if not packed:
+        return 0, {}, 0
+    ok, rejected, _ = vlib.validate_packed("TraceGRPCPlainImpl", "trace_grpcplainimpl.cfg", packed, tag + ".tr")
+    bad = {}
+    for n, ev, detail in rejected:
+        bad.setdefault(n.split("/")[0], (n.split("/")[1], ev, detail))
+    return ok, bad, nev
+
+
+def plain_trace_selftest(obs_list, tag):
+    """Binding self-test: corrupted versions of an accepted plain-broker trace must be rejected."""
+    for o in obs_list:
+        evs = (o.get("out") or {}).get("events")
+        if not evs or o.get("mux") or o.get("pair") != "inproc":
+            continue
+        for d in ("h2p", "p2h"):
+            rows, k = project_plain_trace(evs, d)
+            names = [r["ev"] for r in rows]
+            if k < 2 or k > 12 or "grpc.dial.took" not in names or "grpc.tw.deleted" not in names:
+                continue
+            path = os.path.join(vlib.sub(tag + ".st"), "good.ndjson")
+            vlib.write_ndjson(path, rows)
+            if not vlib.validate_trace("TraceGRPCPlainImpl", "trace_grpcplainimpl.cfg", path)["accepted"]:
+                continue
+
+            def first(rs, ev):
+                return next(i for i, r in enumerate(rs) if r["ev"] == ev)
+
+            def flip_existed(rs):
+                i = first(rs, "grpc.getclientstream")
+                rs[i]["b"] = 1 - rs[i]["b"]
+                return rs
+
+            def drop_park(rs):
+                del rs[first(rs, "grpc.run.park")]
+                return rs
+
+            def misroute(rs):
+                i = first(rs, "grpc.dial.took")
+                rs[i]["b"] = rs[i]["b"] % k + 1
+                return rs
+
+            def served_by_other(rs):
+                for r in rs:
+                    if r["ev"] == "ret.dial" and r.get("ok"):
+                        r["served_by"] = r["served_by"] % k + 1
+                        return rs
+                return None
+
+            def failed_in_window(rs):
+                for r in rs:
+                    if r["ev"] == "ret.dial" and r.get("ok"):
+                        r["ok"], r["served_by"] = False, -1
+                        return rs
+                return None
+
+            def deleted_before_took(rs):
+                i = first(rs, "grpc.dial.took")
+                j = next((x for x in range(i, len(rs)) if rs[x]["ev"] == "grpc.tw.deleted" and rs[x]["a"] == rs[i]["a"]), None)
+                if j is None or rs[j]["t"] - rs[i]["t"] > 1000:
+                    return None
+                e = rs.pop(j)
+                e["t"] = rs[i]["t"]
+                rs.insert(i, e)
+                return rs
+
+            def early_timeout(rs):
+                i = first(rs, "grpc.dial.took")
+                rs[i]["ev"], rs[i]["b"] = "grpc.dial.timeout", 0
+                return rs
+            return vlib.selftest_trace("TraceGRPCPlainImpl", "trace_grpcplainimpl.cfg", path,
+                                       [("slot-existed flag flipped", flip_existed), ("park event removed", drop_park), ("message of another id taken", misroute),
+                                        ("served by another id's listener", served_by_other), ("in-window dial reported failed", failed_in_window),
+                                        ("slot deleted before the take", deleted_before_took), ("timeout before the deadline", early_timeout)], tag + ".st")
+    return 0
+
+
 def run_and_judge(rep, cases, tag, prop, sigprefix, confirm=True):
     b = c02.build()
     env = {"VERIF_VPLUGIN": b["vplugin"], "VERIF_CASE_TIMEOUT_S": "150", "VERIF_WORKERS": "3"}
@@ -34,6 +162,12 @@ def run_and_judge(rep, cases, tag, prop, sigprefix, confirm=True):
     obs_list = [obs[c["name"]] for c in cases if c["name"] in obs]
     r2, dev = vlib.judge_observations("TraceGRPCBroker", "trace_grpcbroker.cfg", obs_list, tag)
     dev = list(dev)
+    # hook-level conformance: the event logs of plain in-process pairs are behaviours of GRPCPlainImpl.tla
+    tr_ok, tr_bad, tr_events = validate_plain_traces(obs, tag)
+    rep.coverage["plain_broker_traces_validated"] = rep.coverage.get("plain_broker_traces_validated", 0) + tr_ok
+    rep.coverage["plain_broker_trace_events"] = rep.coverage.get("plain_broker_trace_events", 0) + tr_events
+    dev += [n for n in tr_bad if n not in dev]
+    tr_bad0 = dict(tr_bad)
     if dev and confirm:
         # real-time scenarios: a deviation counts only if it reproduces when the scenario runs alone
         again = [by[n] for n in dev]
@@ -49,6 +183,12 @@ def run_and_judge(rep, cases, tag, prop, sigprefix, confirm=True):
         if ol2:
             _, d2 = vlib.judge_observations("TraceGRPCBroker", "trace_grpcbroker.cfg", ol2, tag + "c")
             dev2 = set(d2)
+            _, tb2, _ = validate_plain_traces({o["name"]: o for o in ol2}, tag + "c")
+            for n in list(tr_bad):
+                if n in obs2 and not obs2[n].get("hang") and n not in tb2:
+                    del tr_bad[n]
+            tr_bad.update(tb2)
+            dev2 |= set(tb2)
         keep = []
         for n in dev:
             if n in dev2 or n in crashes2 or obs2.get(n, {}).get("hang"):
@@ -56,10 +196,20 @@ def run_and_judge(rep, cases, tag, prop, sigprefix, confirm=True):
                     obs[n] = obs2[n]
                 keep.append(n)
             else:
-                rep.coverage.setdefault("unconfirmed", []).append(n)
+                why = ("trace %s at %s" % (tr_bad0[n][0], json.dumps(tr_bad0[n][1]))) if n in tr_bad0 else "outcome"
+                rep.coverage.setdefault("unconfirmed", []).append("%s (%s, %s)" % (n, by[n].get("fam"), why))
         dev = keep
     for name in dev:
         o, c = obs[name], by[name]
+        if name in tr_bad:
+            d, ev, detail = tr_bad[name]
+            rep.violation("%s:trace:%s:%s" % (sigprefix, c.get("fam", ""), ev.get("ev")),
+                          "in-process plain pair, scenario family %s, direction %s: recorded event %s -- %s (GRPCPlainImpl.tla); establishments %s" % (
+                              c.get("fam", ""), d, json.dumps(ev), detail,
+                              json.dumps([{k: e[k] for k in ("id", "dir", "order", "gap_ms", "nopeer", "dial_ok", "served_by", "err") if k in e} for e in o["out"].get("ests", [])])[:600]),
+                          {"case": c, "observation": {k: v for k, v in o.items() if k != "out"} | {"out": {k: v for k, v in o["out"].items() if k != "events"}},
+                           "trace": project_plain_trace(o["out"].get("events") or [], d)[0][:400]})
+            continue
         bad = [e for e in o["out"].get("ests", []) if not (e["main_ok"] and (e["served_by"] in (-1, e["id"])) and (e["dial_ok"] or e["nopeer"] or e["gap_ms"] >= 5000)
                                                               and (not e["keep"] or not e["dial_ok"] or e["kept_ok"]))]
         kinds = set()
